@@ -231,6 +231,10 @@ func TestVerifC10(t *testing.T) {
 	kit.Run(t, "C10", "inflight", kit.N(160, 3000), func(c *kit.Case) { execute(c, planInflight(c)) })
 	kit.Run(t, "C10", "ctx", kit.N(4000, 80000), func(c *kit.Case) { execute(c, planCtx(c)) })
 	kit.Run(t, "C10", "fault", kit.N(5*len(combos), 60*len(combos)), func(c *kit.Case) { execute(c, planFault(c, combos)) })
+	kit.Run(t, "C10", "errvals", kit.N(1600, 30000), func(c *kit.Case) { execute(c, planErrVals(c)) })
+	kit.Run(t, "C10", "finishx", kit.N(1200, 20000), func(c *kit.Case) { execute(c, planFinishX(c)) })
+	kit.Run(t, "C10", "panicvals", kit.N(1200, 20000), func(c *kit.Case) { execute(c, planPanicVals(c)) })
+	kit.Run(t, "C10", "sentinel", kit.N(300, 5000), func(c *kit.Case) { execute(c, planSentinel(c)) })
 	kit.Run(t, "C10", "combo", kit.N(800, 30000), func(c *kit.Case) { execute(c, planCombo(c, combos)) })
 	kit.End()
 }
